@@ -71,6 +71,9 @@ class SymPage:
     def isdigit(self):
         return True
 
+    def isdecimal(self):
+        return True
+
 
 class HPin(common.Harness):
     def __init__(self, params):
@@ -160,13 +163,102 @@ class HPin(common.Harness):
         return [self.check("C07:id_pin_cite_is_rejected_exactly_when_non_numeric_or_outside_the_page_window", got == self.spec(), self.witness)]
 
 
+_PAGE_UNION = None
+
+
+def page_union():
+    """one alternation of the distinct `page` sub-patterns of the installed extractors (read from the live
+    objects): the strings a first page can be."""
+    global _PAGE_UNION
+    if _PAGE_UNION is None:
+        import eyecite.tokenizers as T
+
+        subs = []
+        for e in T.EXTRACTORS:
+            rx = e.regex
+            for m in re.finditer(r"\(\?P<page>", rx):
+                i = j = m.start()
+                depth = 0
+                while j < len(rx):
+                    ch = rx[j]
+                    if ch == "\\":
+                        j += 2
+                        continue
+                    if ch == "[":
+                        j += 1
+                        if rx[j] == "^":
+                            j += 1
+                        if rx[j] == "]":
+                            j += 1
+                        while rx[j] != "]":
+                            if rx[j] == "\\":
+                                j += 1
+                            j += 1
+                    elif ch == "(":
+                        depth += 1
+                    elif ch == ")":
+                        depth -= 1
+                        if depth == 0:
+                            break
+                    j += 1
+                inner = rx[m.end() : j]
+                if inner not in subs:
+                    subs.append(inner)
+        _PAGE_UNION = subs
+    return _PAGE_UNION
+
+
+class HPinPage(HPin):
+    """the same test with the antecedent's first page as *text*: any string of <= P characters that one of the
+    database's page patterns accepts (digits with a letter suffix, roman numerals, ...), any pin cite of <= N
+    characters."""
+
+    def __init__(self, params):
+        super().__init__(params)
+        self.P = params["P"]
+        self.pm = symre.Matcher("(?:%s)" % "|".join("(?:%s)" % x for x in page_union()), 0)
+
+    def run(self):
+        eng, M = self.eng, self.M
+        n = eng.choose([z3.Int("len") == k for k in range(self.N + 1)])
+        self.chars = [z3.Int(f"c{i}") for i in range(n)]
+        for c in self.chars:
+            eng.add(c >= 0, c <= 0x10FFFF)
+        k = 1 + eng.choose([z3.Int("pagelen") == j for j in range(1, self.P + 1)])
+        self.pchars = [z3.Int(f"g{i}") for i in range(k)]
+        for c in self.pchars:
+            eng.add(c >= 0, c <= 0x10FFFF)
+        page = symre.CStr(list(self.pchars))
+        if self.pm.fullmatch(page) is None:
+            raise symex.Infeasible()
+        self.p = None
+        full = M.FullCaseCitation(M.CitationToken("1 U.S. 1", 0, 8, groups={"volume": "1", "reporter": "U.S.", "page": "1"}), 0)
+        full.groups = {"volume": "1", "reporter": "U.S.", "page": page}
+        idc = M.IdCitation(M.IdToken("Id.", 10, 13), 1)
+        idc.metadata.pin_cite = symre.CStr(list(self.chars)) if n else ""
+        return self.interp.call(self.R._has_invalid_pin_cite, (full, idc), {})
+
+    def spec(self):
+        # a first page that is not a plain decimal number cannot be compared with: nothing to object to
+        alld = z3.And(*[is_digit(c) for c in self.pchars])
+        self.p = number_value(self.pchars)
+        return z3.And(alld, HPin.spec(self))
+
+    def witness(self, m):
+        return {"pin_cite": "".join(chr(mval(m, c) or 0) for c in self.chars), "page": "".join(chr(mval(m, c) or 0) for c in self.pchars)}
+
+
 def make(params):
-    return HPin(params)
+    return HPinPage(params) if params.get("P") else HPin(params)
 
 
 def spec_py(pin, page, mx):
     if not pin:
         return False
+    if isinstance(page, str):
+        if not re.fullmatch(r"\d+", page):
+            return False
+        page = int(page)
     off = 3 if pin.startswith("at ") else 0
     k = 0
     while off + k < len(pin) and re.fullmatch(r"\d", pin[off + k]):
@@ -198,6 +290,14 @@ def fold(rep, pid):
     rep.stubs.append("int() on a symbolic string: whitespace stripped, optional sign, then the decimal value of Unicode decimal digits; anything else raises ValueError")
     agg = common.explore_split("vf.harness.pinlemma", {"N": N}, depth=3)
     rep.merge_explore("pin_cite_lemma", agg)
+    NP, PP = (2, 2) if quick else (3, 3)
+    rep.bounds.append(f"... and with the first page as text: any string of <= {PP} characters accepted by one of the {len(page_union())} page patterns of the installed extractors, pin cite of <= {NP} arbitrary characters")
+    agg2 = common.explore_split("vf.harness.pinlemma", {"N": NP, "P": PP}, depth=3)
+    rep.merge_explore("pin_cite_lemma_page_text", agg2)
+    for k, v in agg2["verdicts"].items():
+        agg["verdicts"][k] = agg["verdicts"].get(k, 0) + v
+    agg["findings"] = agg["findings"] + agg2["findings"]
+    agg["paths"] += agg2["paths"]
     pref = ("C04:",) if pid == "C04" else ("C07:", "C04:")
     n_ob = sum(v for k, v in agg["verdicts"].items() if k.startswith(pref))
     n_ok = sum(v for k, v in agg["verdicts"].items() if k.startswith(pref) and k.endswith(":valid"))
